@@ -13,7 +13,7 @@ import (
 )
 
 func init() {
-	register(&Rule{ID: "C13", Run: runC13, Controls: controlsC13,
+	register(&Rule{ID: "C13", Run: runC13, Controls: controlsC13, ThoroughWhole: true,
 		Explanation: "Structural necessary conditions of 'a failed real scrape is a failed scrape for Prometheus, with truthful health', decided on the proxy handler, its deferred completion and ScrapeStatus.SetScrapeErr: " +
 			"R13.1 late failure must abort: once the response writer was handed to the scraper (WithRawWriter), every exit reached through ParseResponse's error edge passes panic(http.ErrAbortHandler) unless the hand-over condition is false on that path (the same SSA value decides both) - a status code written after body bytes is ineffective (net/http contract); " +
 			"R13.2 the completion is deferred before the request is made; it increments ScrapeTimes exactly once, outside any loop, conditional only on the status entry existing; " +
@@ -584,8 +584,36 @@ func runC13(p *engine.Prog, r *engine.Report) {
 
 func controlsC13(p *engine.Prog) []Control { return nil }
 
+// parserSwallowsReadErrors re-derives, from the pinned source in the whole-program load, the library
+// behaviour R13.8 guards against: the stream parser's line reader classifies some read errors as the end of the stream.
+func parserSwallowsReadErrors(p *engine.Prog) (bool, string) {
+	for fn := range ssautilAll(p) {
+		if fn.Pkg == nil || !strings.HasSuffix(fn.Pkg.Pkg.Path(), "VictoriaMetrics/lib/protoparser/common") || fn.Blocks == nil {
+			continue
+		}
+		// a predicate on an error that is true for io.EOF and for errors matched by text, used by the line reader
+		if fn.Signature.Params().Len() != 1 || fn.Signature.Results().Len() != 1 || fn.Signature.Params().At(0).Type().String() != "error" {
+			continue
+		}
+		for _, in := range allInstrs(fn) {
+			call, ok := in.(*ssa.Call)
+			if !ok || !engine.CalleeIs(call.Common(), "strings", "", "Contains") {
+				continue
+			}
+			if c, ok := call.Call.Args[1].(*ssa.Const); ok && c.Value != nil && c.Value.Kind() == constant.String {
+				return true, engine.FuncName(fn) + " (" + p.Rel(fn.Pos()) + ") is true for read errors whose text contains " + c.Value.ExactString()
+			}
+		}
+	}
+	return false, "no text-matching end-of-stream predicate found in the pinned stream parser (R13.8 then asks for more than this parser needs; it stays a necessary condition for parsers that may stop early on a read error)"
+}
+
 // checkReadFailureReported is R13.8.
 func checkReadFailureReported(p *engine.Prog, r *engine.Report) {
+	if p.Whole {
+		_, why := parserSwallowsReadErrors(p)
+		r.Add("R13.8-read-failure-reported", "library summary: the stream parser can take a read error for the end of the stream", "VictoriaMetrics lib/protoparser/common", "re-derived from the pinned source", why, engine.Discharged)
+	}
 	mParse := p.Method(pkgScrape, "Scraper", "ParseResponse")
 	fReader := p.Field(pkgScrape, "Scraper", "reader")
 	if len(p.Problems) > 0 {
